@@ -402,6 +402,8 @@ fn canon_model_clone(resp: &str, roots: &[(char, u64)], typed: &dyn Fn(u64) -> b
 fn exec_case(c: &Value) -> Value {
     match c["kind"].as_str().unwrap_or("") {
         "clone" => json!(exec_clone(c)),
+        "import" => exec_import(c),
+        "page" => json!(exec_page(c)),
         _ => json!("bad-case"),
     }
 }
@@ -684,6 +686,1007 @@ fn clone_random(driver: &Driver, seed: u64, n: u64) -> Stream {
 }
 
 // =====================================================================================================
+// page documents (correspondence c20.page and generated inputs of the oracle)
+
+#[derive(Clone, Debug)]
+enum OpSpec {
+    /// names resource `name` of category `kind` (index into RES_KINDS)
+    Use(usize, u64),
+    /// BDC with a property list holding references
+    Inline(Vec<u64>),
+    /// anything else
+    Other(u64),
+}
+
+#[derive(Clone, Debug)]
+struct ResSpec {
+    kind: usize,
+    name: u64,
+    payload: u64,
+    /// gs: /K references (prim); font: one target (prim); xobject: one form (ref); others: one target, never followed
+    kids: Vec<u64>,
+}
+
+#[derive(Clone, Copy, Debug, PartialEq)]
+enum ResMode { Direct, Indirect, Inherited }
+
+#[derive(Clone, Debug)]
+struct PSpec {
+    media: [i64; 4],
+    crop: Option<[i64; 4]>,
+    trim: Option<[i64; 4]>,
+    rotate: i64,
+    res_mode: ResMode,
+    res: Vec<ResSpec>,
+    ops: Vec<OpSpec>,
+    /// page-level /K references (land in `Page::other`)
+    rest: Vec<u64>,
+    flate: bool,
+    split: bool,
+}
+
+const KIND_PREFIX: [&str; 7] = ["G", "F", "X", "C", "Pt", "Sh", "MC"];
+
+fn res_name(kind: usize, name: u64) -> String {
+    format!("{}{}", KIND_PREFIX[kind], name)
+}
+
+fn res_dict_text(res: &[ResSpec]) -> String {
+    let mut s = String::from("<<");
+    for kind in 0..7 {
+        let es: Vec<&ResSpec> = res.iter().filter(|r| r.kind == kind).collect();
+        if es.is_empty() { continue; }
+        s.push_str(&format!(" /{} <<", RES_KINDS[kind]));
+        for e in es {
+            let n = res_name(kind, e.name);
+            match kind {
+                0 => s.push_str(&format!(" /{} << /Type /ExtGState /LW 2 /P {} /K [{}] >>", n, e.payload, refs_txt(&e.kids))),
+                3 => s.push_str(&format!(" /{} /DeviceRGB", n)),
+                _ => match e.kids.first() { Some(t) => s.push_str(&format!(" /{} {} 0 R", n, t)), None => {} },
+            }
+        }
+        s.push_str(" >>");
+    }
+    s.push_str(" >>");
+    s
+}
+
+fn ops_text_of(ops: &[OpSpec]) -> String {
+    let mut s = String::new();
+    for op in ops {
+        match op {
+            OpSpec::Use(0, n) => s.push_str(&format!("/{} gs\n", res_name(0, *n))),
+            OpSpec::Use(1, n) => s.push_str(&format!("BT /{} 12 Tf ET\n", res_name(1, *n))),
+            OpSpec::Use(2, n) => s.push_str(&format!("/{} Do\n", res_name(2, *n))),
+            OpSpec::Use(3, n) => s.push_str(&format!("/{} cs\n", res_name(3, *n))),
+            OpSpec::Use(4, n) => s.push_str(&format!("/Pattern cs /{} scn\n", res_name(4, *n))),
+            OpSpec::Use(5, n) => s.push_str(&format!("/{} sh\n", res_name(5, *n))),
+            OpSpec::Use(_, n) => s.push_str(&format!("/OC /{} BDC EMC\n", res_name(6, *n))),
+            OpSpec::Inline(k) => s.push_str(&format!("/Span << /K [{}] >> BDC EMC\n", refs_txt(k))),
+            OpSpec::Other(t) => s.push_str(["q\n", "Q\n", "1 0 0 1 5 5 cm\n", "0 0 10 10 re\n", "f\n", "0.5 g\n", "BT (text) Tj ET\n", "1 0 0 RG\n"][(*t % 8) as usize]),
+        }
+    }
+    s
+}
+
+/// model request fields of a page: `ops/res/rest`
+fn page_model(p: &PSpec) -> String {
+    let ops: Vec<String> = p.ops.iter().map(|o| match o {
+        OpSpec::Use(k, n) => format!("u{}.{}", k, n),
+        OpSpec::Inline(k) => format!("i:{}", edges_str(&k.iter().map(|t| ('p', *t)).collect::<Vec<_>>())),
+        OpSpec::Other(t) => format!("o{}", t),
+    }).collect();
+    let res: Vec<String> = p.res.iter().map(|r| {
+        let kids: Vec<(char, u64)> = match r.kind { 0 | 1 => r.kids.iter().map(|t| ('p', *t)).collect(), 2 => r.kids.iter().map(|t| ('t', *t)).collect(), _ => vec![] };
+        let payload = if r.kind == 0 { r.payload } else { 0 };
+        format!("{}.{}.{}:{}", r.kind, r.name, payload, edges_str(&kids))
+    }).collect();
+    format!("{}/{}/{}", if ops.is_empty() { "-".to_string() } else { ops.join(",") }, if res.is_empty() { "-".to_string() } else { res.join(",") },
+        edges_str(&p.rest.iter().map(|t| ('p', *t)).collect::<Vec<_>>()))
+}
+
+fn box_txt(b: &[i64; 4]) -> String { format!("[{} {} {} {}]", b[0], b[1], b[2], b[3]) }
+
+/// pages are objects 3.., their content streams and indirect resource dictionaries follow; graph nodes keep their numbers (≥ 100)
+fn page_doc(pages: &[PSpec], g: &Graph, extra: &[(u64, Vec<u8>, bool)], layout: Layout) -> Vec<u8> {
+    let mut objs: Vec<(u64, Vec<u8>, bool)> = vec![];
+    let np = pages.len() as u64;
+    let mut kids = vec![];
+    let mut inherited_res: Option<String> = None;
+    for (i, p) in pages.iter().enumerate() {
+        let pid = 3 + i as u64;
+        kids.push(pid);
+        let cid = 3 + np + 2 * i as u64;
+        let rid = 3 + 3 * np + i as u64;
+        let mut d = format!("<< /Type /Page /Parent 2 0 R /MediaBox {}", box_txt(&p.media));
+        if let Some(c) = &p.crop { d.push_str(&format!(" /CropBox {}", box_txt(c))); }
+        if let Some(t) = &p.trim { d.push_str(&format!(" /TrimBox {}", box_txt(t))); }
+        if p.rotate != 0 { d.push_str(&format!(" /Rotate {}", p.rotate)); }
+        match p.res_mode {
+            ResMode::Direct => d.push_str(&format!(" /Resources {}", res_dict_text(&p.res))),
+            ResMode::Indirect => { d.push_str(&format!(" /Resources {} 0 R", rid)); objs.push((rid, res_dict_text(&p.res).into_bytes(), false)); }
+            ResMode::Inherited => { inherited_res = Some(res_dict_text(&p.res)); }
+        }
+        let text = ops_text_of(&p.ops);
+        let mk = |t: &str| -> Vec<u8> { if p.flate { stream_body("/Filter /FlateDecode", &zlib(t.as_bytes())) } else { stream_body("", t.as_bytes()) } };
+        if p.split && text.lines().count() >= 2 {
+            let lines: Vec<&str> = text.lines().collect();
+            let h = lines.len() / 2;
+            objs.push((cid, mk(&(lines[..h].join("\n") + "\n")), true));
+            objs.push((cid + 1, mk(&(lines[h..].join("\n") + "\n")), true));
+            d.push_str(&format!(" /Contents [{} 0 R {} 0 R]", cid, cid + 1));
+        } else {
+            objs.push((cid, mk(&text), true));
+            d.push_str(&format!(" /Contents {} 0 R", cid));
+        }
+        if !p.rest.is_empty() { d.push_str(&format!(" /K [{}]", refs_txt(&p.rest))); }
+        d.push_str(" >>");
+        objs.push((pid, d.into_bytes(), false));
+    }
+    for (id, n) in g {
+        objs.push((*id, node_body(*id, n), matches!(n.ty, NT::Stm | NT::Form)));
+    }
+    for e in extra { objs.push(e.clone()); }
+    let pages_extra = inherited_res.map(|r| format!("/Resources {}", r)).unwrap_or_default();
+    write_doc(&kids, &pages_extra, &objs, layout)
+}
+
+/// case = {"kind":"page","doc":hex,"pages":[indices..],"types":{..}} → "<page results> |<canonical objects>"
+fn exec_page(case: &Value) -> String {
+    let doc = unhex(case["doc"].as_str().unwrap_or("-")).unwrap_or_default();
+    let pages: Vec<u32> = case["pages"].as_array().map(|a| a.iter().filter_map(|x| x.as_u64()).map(|x| x as u32).collect()).unwrap_or_default();
+    let types = &case["types"];
+    let ty = |id: u64| types[id.to_string()].as_str().unwrap_or("").to_string();
+    let old = match FileOptions::uncached().load(doc) { Ok(f) => f, Err(e) => return format!("load-failed:{}", e) };
+    let mut builder = PdfBuilder::new(FileOptions::uncached());
+    let mut rec = Rec { inner: &mut builder.storage, created: vec![] };
+    // per page: Err(outcome) | Ok((resource dictionary as written, rest references))
+    let mut outs: Vec<Result<(Primitive, Vec<u64>), String>> = vec![];
+    {
+        let mut imp = Importer::new(old.resolver(), &mut rec);
+        for pi in pages {
+            let page = match old.get_page(pi) { Ok(p) => p, Err(e) => { outs.push(Err(format!("get_page-failed:{}", e))); continue; } };
+            match catch_unwind(AssertUnwindSafe(|| PageBuilder::clone_page(&page, &mut imp))) {
+                Ok(Ok(pb)) => {
+                    let resd = catch_unwind(AssertUnwindSafe(|| pb.resources.to_primitive(&mut pdf::object::NoUpdate))).ok().and_then(|r| r.ok()).unwrap_or(Primitive::Null);
+                    let mut rest = vec![];
+                    for o in [&pb.metadata, &pb.lgi, &pb.vp] { if let Some(p) = o { collect_refs(p, &mut rest); } }
+                    collect_refs(&Primitive::Dictionary(pb.other.clone()), &mut rest);
+                    outs.push(Ok((resd, rest)));
+                }
+                Ok(Err(_)) => outs.push(Err("err".into())),
+                Err(_) => { outs.push(Err("panic".into())); break; }
+            }
+        }
+    }
+    let created = rec.created;
+    let res = builder.storage.resolver();
+    let objs: Vec<(u64, Option<u64>, Vec<u64>)> = created.iter().map(|r| match res.resolve(*r) {
+        Ok(p) => { let mut ks = vec![]; collect_refs(&p, &mut ks); (r.id, payload_of(&p), ks) }
+        Err(_) => (r.id, None, vec![]),
+    }).collect();
+    let back: BTreeMap<u64, Option<u64>> = objs.iter().map(|(n, o, _)| (*n, *o)).collect();
+    let tr = |k: &u64| match back.get(k) { Some(Some(o)) => format!("{}", o), Some(None) => format!("?nopayload{}", k), None => format!("?outside{}", k) };
+    let page_strs: Vec<String> = outs.iter().map(|o| match o {
+        Err(e) => e.clone(),
+        Ok((resd, rest)) => {
+            let mut entries = vec![];
+            if let Primitive::Dictionary(d) = resd {
+                for (kind, kn) in RES_KINDS.iter().enumerate() {
+                    if let Some(Primitive::Dictionary(cat)) = d.get(kn) {
+                        for (name, v) in cat.iter() {
+                            let num = name.as_str().trim_start_matches(KIND_PREFIX[kind]).to_string();
+                            let mut ks = vec![];
+                            collect_refs(v, &mut ks);
+                            let payload = match v { Primitive::Dictionary(e) => e.get("P").and_then(|p| p.as_integer().ok()).unwrap_or(0), _ => 0 };
+                            entries.push(format!("{}.{}.{}:{}", kind, num, payload, ks.iter().map(tr).collect::<Vec<_>>().join("+")));
+                        }
+                    }
+                }
+            }
+            entries.sort();
+            format!("ok/{}/{}", entries.join(","), rest.iter().map(tr).collect::<Vec<_>>().join("+"))
+        }
+    }).collect();
+    let typed = |o: u64| matches!(ty(o).as_str(), "Res" | "Form");
+    format!("{} |{}", page_strs.join(" "), canon_objects(&objs, &typed))
+}
+
+/// the model's `c20.page` answer in the same canonical form
+fn canon_model_page(resp: &str, typed: &dyn Fn(u64) -> bool) -> String {
+    let parts: Vec<&str> = resp.split('|').collect();
+    if parts.len() != 3 { return format!("model:{}", resp); }
+    let objs = model_objects(parts[2]);
+    let back: BTreeMap<u64, Option<u64>> = objs.iter().map(|(n, o, _)| (*n, *o)).collect();
+    let tr = |k: &str| -> String { match k.parse::<u64>().ok().and_then(|k| back.get(&k).cloned()) { Some(Some(o)) => format!("{}", o), _ => format!("?{}", k) } };
+    let trs = |ks: &str| -> String { if ks == "-" { String::new() } else { ks.split('+').map(tr).collect::<Vec<_>>().join("+") } };
+    let page_strs: Vec<String> = parts[0].trim().split(' ').filter(|x| !x.is_empty() && *x != "-").map(|pg| {
+        let f: Vec<&str> = pg.split('/').collect();
+        if f.len() != 3 || f[0] != "ok" { return pg.to_string(); }
+        let mut entries: Vec<String> = if f[1] == "-" { vec![] } else {
+            f[1].split(',').map(|e| { let h: Vec<&str> = e.split(':').collect(); format!("{}:{}", h[0], trs(h.get(1).cloned().unwrap_or("-"))) }).collect()
+        };
+        entries.sort();
+        format!("ok/{}/{}", entries.join(","), trs(f[2]))
+    }).collect();
+    format!("{} |{}", page_strs.join(" "), canon_objects(&objs, typed))
+}
+
+fn random_pspec(rng: &mut Rng, g: &Graph, all_kinds: bool) -> PSpec {
+    let ids: Vec<u64> = g.keys().cloned().collect();
+    let forms: Vec<u64> = g.iter().filter(|(_, n)| n.ty == NT::Form).map(|(i, _)| *i).collect();
+    let dicts: Vec<u64> = g.iter().filter(|(_, n)| n.ty == NT::Dict).map(|(i, _)| *i).collect();
+    let mut res = vec![];
+    let nres = rng.below(6);
+    for _ in 0..nres {
+        let kind = if all_kinds { rng.usize(7) } else { rng.usize(3) };
+        let name = 1 + rng.below(4);
+        if res.iter().any(|r: &ResSpec| r.kind == kind && r.name == name) { continue; }
+        let kids: Vec<u64> = match kind {
+            0 => (0..rng.below(3)).filter_map(|_| if ids.is_empty() { None } else { Some(*rng.pick(&ids)) }).collect(),
+            2 => if forms.is_empty() { continue } else { vec![*rng.pick(&forms)] },
+            6 => if dicts.is_empty() { continue } else { vec![*rng.pick(&dicts)] },
+            3 => vec![],
+            _ => if ids.is_empty() { continue } else { vec![*rng.pick(&ids)] },
+        };
+        res.push(ResSpec { kind, name, payload: 1000 + rng.below(9000), kids });
+    }
+    let mut ops = vec![];
+    for _ in 0..rng.below(8) {
+        let c = rng.below(10);
+        if c < 6 {
+            // mostly names that exist, sometimes one that does not
+            let (kind, name) = if !res.is_empty() && rng.chance(5, 6) { let r = rng.pick(&res); (r.kind, r.name) } else { (if all_kinds { rng.usize(7) } else { rng.usize(3) }, 1 + rng.below(5)) };
+            ops.push(OpSpec::Use(kind, name));
+        } else if c < 7 && !ids.is_empty() {
+            ops.push(OpSpec::Inline((0..1 + rng.below(2)).map(|_| *rng.pick(&ids)).collect()));
+        } else {
+            ops.push(OpSpec::Other(rng.below(8)));
+        }
+    }
+    let w = 100 + rng.range(0, 500);
+    let h = 100 + rng.range(0, 700);
+    PSpec {
+        media: [0, 0, w, h],
+        crop: if rng.chance(1, 3) { Some([5, 5, w - 5, h - 5]) } else { None },
+        trim: if rng.chance(1, 4) { Some([10, 10, w - 10, h - 10]) } else { None },
+        rotate: *rng.pick(&[0, 0, 90, 180, 270]),
+        res_mode: *rng.pick(&[ResMode::Direct, ResMode::Direct, ResMode::Indirect]),
+        res,
+        ops,
+        rest: (0..rng.below(3)).filter_map(|_| if ids.is_empty() { None } else { Some(*rng.pick(&ids)) }).collect(),
+        flate: rng.chance(1, 2),
+        split: rng.chance(1, 4),
+    }
+}
+
+fn page_stream(driver: &Driver, seed: u64, n: u64) -> Stream {
+    let mut st = Stream::new("c20.page", true);
+    let mut reqs = vec![];
+    let mut cases = vec![];
+    let mut graphs = vec![];
+    for case in 0..n {
+        let mut rng = Rng::derive(seed, "c20.page", case);
+        let cyc = rng.chance(1, 8);
+        let miss = rng.chance(1, 8);
+        // graph nodes are numbered from 100 so that pages, contents and resource objects fit below
+        let g0 = random_graph(&mut rng, cyc, miss);
+        let g: Graph = g0.into_iter().map(|(id, mut nd)| {
+            let sh = |x: u64| if x >= 900 { x } else { x + 90 };
+            nd.k = nd.k.iter().map(|x| sh(*x)).collect(); nd.a = nd.a.map(sh); nd.b = nd.b.map(sh);
+            (id + 90, nd)
+        }).collect();
+        let np = 1 + rng.below(3);
+        let mut pages: Vec<PSpec> = (0..np).map(|_| random_pspec(&mut rng, &g, true)).collect();
+        // at most one page can take its resources from the page tree
+        if rng.chance(1, 4) { let i = rng.usize(pages.len()); pages[i].res_mode = ResMode::Inherited; }
+        let mut order: Vec<u32> = (0..np as u32).collect();
+        rng.shuffle(&mut order);
+        if rng.chance(1, 4) { let d = order[0]; order.push(d); }
+        let xs = rng.chance(1, 2);
+        let layout = Layout { xref_stream: xs, objstm: xs && rng.chance(1, 2), flate: rng.chance(1, 2) };
+        let doc = page_doc(&pages, &g, &[], layout);
+        let page_fields: Vec<String> = order.iter().map(|i| page_model(&pages[*i as usize])).collect();
+        reqs.push(format!("c20.page {} 0 {} {}", g.len() + 2, nodes_str(&g), page_fields.join(" ")));
+        cases.push(json!({"kind": "page", "doc": hex(&doc), "pages": order, "types": types_json(&g)}));
+        st.count(&format!("pages={}", order.len()));
+        for p in &pages {
+            for r in &p.res { st.count(&format!("resource-kind={}", RES_KINDS[r.kind])); }
+            st.count(&format!("res-mode={:?}", p.res_mode));
+        }
+        st.count(if has_cycle(&g) { "graph=cyclic" } else { "graph=acyclic" });
+        graphs.push(g);
+    }
+    let resp = driver.ask(&reqs);
+    let risky: Vec<usize> = (0..cases.len()).filter(|i| has_cycle(&graphs[*i])).collect();
+    let risky_json: Vec<Value> = risky.iter().map(|i| cases[*i].clone()).collect();
+    let mut risky_map: BTreeMap<usize, String> = BTreeMap::new();
+    for (i, r) in risky.iter().zip(run_in_children(&risky_json, 10).into_iter()) {
+        risky_map.insert(*i, match r { Ok(v) => v.as_str().unwrap_or("bad-child-answer").to_string(), Err(e) => e });
+    }
+    for i in 0..cases.len() {
+        let imp = match risky_map.remove(&i) { Some(a) => a, None => exec_page(&cases[i]) };
+        let g = &graphs[i];
+        let typed = |o: u64| g.get(&o).map(|n| matches!(n.ty, NT::Res | NT::Form)).unwrap_or(false);
+        let model = canon_model_page(&resp[i], &typed);
+        st.count(if model.contains("err") { "outcome=some-err" } else { "outcome=all-ok" });
+        st.case(&reqs[i], &model, &imp, model.contains(':'));
+    }
+    st
+}
+
+// =====================================================================================================
+// oracle: import pages of a document, build, reload, compare with the source
+
+/// deep comparison of a source value with its copy, modulo renaming of references
+struct Cmp<'a, RO: Resolve, RN: Resolve> {
+    ro: &'a RO,
+    rn: &'a RN,
+    /// source object → new object, as established by walking both sides in parallel
+    fwd: BTreeMap<u64, u64>,
+    bwd: BTreeMap<u64, u64>,
+    visited: BTreeSet<(u64, u64)>,
+    /// (signature, description)
+    diffs: Vec<(String, String)>,
+    steps: usize,
+}
+
+fn num_of(p: &Primitive) -> Option<f64> {
+    match p {
+        Primitive::Integer(i) => Some(*i as f64),
+        Primitive::Number(f) => Some(*f as f64),
+        _ => None,
+    }
+}
+
+fn kind_name(p: &Primitive) -> &'static str {
+    match p {
+        Primitive::Null => "null", Primitive::Integer(_) => "integer", Primitive::Number(_) => "real", Primitive::Boolean(_) => "bool",
+        Primitive::String(_) => "string", Primitive::Stream(_) => "stream", Primitive::Dictionary(_) => "dict",
+        Primitive::Array(_) => "array", Primitive::Reference(_) => "ref", Primitive::Name(_) => "name",
+    }
+}
+
+/// does the value hold a name (key or value) that `serialize_name` cannot write (defect D8, owned by the
+/// C04 package: no `#xx` escaping)? References are not followed.
+fn has_irregular_name(p: &Primitive) -> bool {
+    let bad = |n: &str| n.bytes().any(|b| !(b'!'..=b'~').contains(&b) || matches!(b, b'(' | b')' | b'<' | b'>' | b'[' | b']' | b'{' | b'}' | b'/' | b'%' | b'#' | b'\\'));
+    match p {
+        Primitive::Name(n) => bad(n.as_str()),
+        Primitive::Array(a) => a.iter().any(has_irregular_name),
+        Primitive::Dictionary(d) => d.iter().any(|(k, v)| bad(k.as_str()) || has_irregular_name(v)),
+        Primitive::Stream(s) => s.info.iter().any(|(k, v)| bad(k.as_str()) || has_irregular_name(v)),
+        _ => false,
+    }
+}
+
+/// a reference that does not lead to an object (as opposed to an object that cannot be parsed)
+fn is_missing(e: &PdfError) -> bool {
+    matches!(crate::util::err_class(e), "F" | "N" | "U")
+}
+
+/// entries a typed copy writes out although the source left them to their default: same meaning
+fn is_default_entry(path: &str, d: &Dictionary, key: &str, v: &Primitive) -> bool {
+    let name_is = |k: &str, n: &str| d.get(k).and_then(|p| p.as_name().ok()) == Some(n);
+    let xobj = name_is("Subtype", "Image") || name_is("Subtype", "Form") || name_is("Subtype", "PS");
+    match (key, v) {
+        ("Type", Primitive::Name(n)) if n.as_str() == "XObject" => xobj,
+        ("Type", Primitive::Name(n)) if n.as_str() == "ExtGState" => path.contains("/ExtGState/"),
+        ("ImageMask", Primitive::Boolean(false)) | ("Interpolate", Primitive::Boolean(false)) => name_is("Subtype", "Image"),
+        ("FormType", Primitive::Integer(1)) => name_is("Subtype", "Form"),
+        _ => false,
+    }
+}
+
+/// defaults of the filter parameters (a typed copy writes them out, the source may omit them)
+fn parm_default(filter: &str, key: &str) -> Option<Primitive> {
+    match (filter, key) {
+        ("FlateDecode", "Predictor") | ("LZWDecode", "Predictor") => Some(Primitive::Integer(1)),
+        ("FlateDecode", "Colors") | ("LZWDecode", "Colors") => Some(Primitive::Integer(1)),
+        ("FlateDecode", "BitsPerComponent") | ("LZWDecode", "BitsPerComponent") => Some(Primitive::Integer(8)),
+        ("FlateDecode", "Columns") | ("LZWDecode", "Columns") => Some(Primitive::Integer(1)),
+        ("FlateDecode", "EarlyChange") | ("LZWDecode", "EarlyChange") => Some(Primitive::Integer(1)),
+        ("CCITTFaxDecode", "K") => Some(Primitive::Integer(0)),
+        ("CCITTFaxDecode", "EndOfLine") | ("CCITTFaxDecode", "EncodedByteAlign") | ("CCITTFaxDecode", "BlackIs1") => Some(Primitive::Boolean(false)),
+        ("CCITTFaxDecode", "Columns") => Some(Primitive::Integer(1728)),
+        ("CCITTFaxDecode", "Rows") | ("CCITTFaxDecode", "DamagedRowsBeforeError") => Some(Primitive::Integer(0)),
+        ("CCITTFaxDecode", "EndOfBlock") => Some(Primitive::Boolean(true)),
+        _ => None,
+    }
+}
+
+impl<'a, RO: Resolve, RN: Resolve> Cmp<'a, RO, RN> {
+    fn diff(&mut self, sig: &str, what: String) {
+        if self.diffs.len() < 40 {
+            self.diffs.push((sig.to_string(), what));
+        }
+    }
+    /// pair a source object with a new object; reports a broken single-copy relation
+    fn pair(&mut self, path: &str, o: u64, n: u64) {
+        match self.fwd.get(&o) {
+            Some(n0) if *n0 != n => { let n0 = *n0; self.diff("shared-object-copied-twice", format!("{}: source object {} has two copies, {} and {}", path, o, n0, n)); }
+            _ => { self.fwd.insert(o, n); }
+        }
+        match self.bwd.get(&n) {
+            Some(o0) if *o0 != o => { let o0 = *o0; self.diff("distinct-objects-merged", format!("{}: new object {} stands for two source objects, {} and {}", path, n, o0, o)); }
+            _ => { self.bwd.insert(n, o); }
+        }
+    }
+    fn equiv(&mut self, path: &str, a: &Primitive, b: &Primitive) {
+        self.steps += 1;
+        if self.steps > 400_000 {
+            return;
+        }
+        match (a, b) {
+            (Primitive::Reference(ra), Primitive::Reference(rb)) => {
+                self.pair(path, ra.id, rb.id);
+                if !self.visited.insert((ra.id, rb.id)) {
+                    return;
+                }
+                let pa = self.ro.resolve(*ra);
+                let pb = self.rn.resolve(*rb);
+                match (pa, pb) {
+                    (Ok(pa), Ok(pb)) => self.equiv(&format!("{}@{}", path, ra.id), &pa, &pb),
+                    (Err(_), Ok(pb)) => { if !matches!(pb, Primitive::Null) { self.diff("copy-of-missing-object", format!("{}: source reference {} does not resolve but the copy does", path, ra.id)); } }
+                    (Ok(pa), Err(e)) => {
+                        if is_missing(&e) {
+                            self.diff("dangling-reference-in-copy", format!("{}: new reference {} does not lead to an object", path, rb.id));
+                        } else if has_irregular_name(&pa) {
+                            self.diff("copy-unreadable:name-needs-escaping(D8)", format!("{}: the copy (object {}) of source object {} cannot be parsed; the source holds a name that needs #xx escaping", path, rb.id, ra.id));
+                        } else {
+                            self.diff("copy-unreadable", format!("{}: the copy (object {}) of source object {} cannot be parsed: {}", path, rb.id, ra.id, crate::util::err_root(&e)));
+                        }
+                    }
+                    (Err(_), Err(_)) => {}
+                }
+            }
+            (Primitive::Reference(ra), b) => {
+                // the copy holds the value directly (typed values are written inline)
+                match self.ro.resolve(*ra) {
+                    Ok(pa) => self.equiv(&format!("{}@{}", path, ra.id), &pa, b),
+                    Err(_) => { if !matches!(b, Primitive::Null) { self.diff("copy-of-missing-object", format!("{}: source reference {} does not resolve", path, ra.id)); } }
+                }
+            }
+            (a, Primitive::Reference(rb)) => {
+                match self.rn.resolve(*rb) {
+                    Ok(pb) => self.equiv(&format!("{}@new{}", path, rb.id), a, &pb),
+                    Err(e) => self.diff("dangling-reference-in-copy", format!("{}: new reference {} does not resolve: {}", path, rb.id, e)),
+                }
+            }
+            (Primitive::Array(xa), Primitive::Array(xb)) => {
+                if xa.len() != xb.len() {
+                    self.diff("value-differs", format!("{}: array length {} vs {}", path, xa.len(), xb.len()));
+                    return;
+                }
+                for (i, (x, y)) in xa.iter().zip(xb.iter()).enumerate() {
+                    self.equiv(&format!("{}[{}]", path, i), x, y);
+                }
+            }
+            (Primitive::Dictionary(da), Primitive::Dictionary(db)) => self.dicts(path, da, db, false),
+            (Primitive::Stream(sa), Primitive::Stream(sb)) => {
+                self.dicts(path, &sa.info, &sb.info, true);
+                self.stream_data(path, sa, sb);
+            }
+            (a, b) => {
+                let same = match (num_of(a), num_of(b)) {
+                    (Some(x), Some(y)) => x == y,
+                    _ => a == b,
+                };
+                if !same {
+                    self.diff("value-differs", format!("{}: {} {:?} vs {} {:?}", path, kind_name(a), a, kind_name(b), b));
+                }
+            }
+        }
+    }
+    fn dicts(&mut self, path: &str, da: &Dictionary, db: &Dictionary, is_stream: bool) {
+        let skip = |k: &str| is_stream && matches!(k, "Length" | "Filter" | "DecodeParms");
+        for (k, va) in da.iter() {
+            if skip(k.as_str()) { continue; }
+            match db.get(k.as_str()) {
+                Some(vb) => self.equiv(&format!("{}/{}", path, k.as_str()), va, vb),
+                None => {
+                    // an explicit null is the same as an absent entry
+                    if !matches!(va, Primitive::Null) {
+                        self.diff(&format!("entry-lost:{}", k.as_str()), format!("{}: entry /{} {} of the source is missing in the copy", path, k.as_str(), va));
+                    }
+                }
+            }
+        }
+        for (k, vb) in db.iter() {
+            if skip(k.as_str()) { continue; }
+            if da.get(k.as_str()).is_none() && !matches!(vb, Primitive::Null) && !is_default_entry(path, db, k.as_str(), vb) {
+                self.diff(&format!("entry-added:{}", k.as_str()), format!("{}: entry /{} {} of the copy is not in the source", path, k.as_str(), vb));
+            }
+        }
+    }
+    /// the filter chain of a stream dictionary: (name, parameters)
+    fn filters<R: Resolve>(d: &Dictionary, r: &R) -> Vec<(String, Dictionary)> {
+        let res = |p: &Primitive| -> Primitive { p.clone().resolve(r).unwrap_or(Primitive::Null) };
+        let names: Vec<String> = match d.get("Filter").map(res) {
+            Some(Primitive::Name(n)) => vec![n.to_string()],
+            Some(Primitive::Array(a)) => a.iter().map(|x| match res(x) { Primitive::Name(n) => n.to_string(), _ => "?".into() }).collect(),
+            _ => vec![],
+        };
+        let parms: Vec<Primitive> = match d.get("DecodeParms").map(res) {
+            Some(Primitive::Array(a)) => a.iter().map(res).collect(),
+            Some(p @ Primitive::Dictionary(_)) => vec![p],
+            _ => vec![],
+        };
+        names.into_iter().enumerate().map(|(i, n)| {
+            let d = match parms.get(i) { Some(Primitive::Dictionary(d)) => d.clone(), _ => Dictionary::new() };
+            (n, d)
+        }).collect()
+    }
+    fn stream_data(&mut self, path: &str, sa: &pdf::primitive::PdfStream, sb: &pdf::primitive::PdfStream) {
+        let fa = Self::filters(&sa.info, self.ro);
+        let fb = Self::filters(&sb.info, self.rn);
+        let da = sa.raw_data(self.ro);
+        let db = sb.raw_data(self.rn);
+        let (da, db) = match (da, db) {
+            (Ok(a), Ok(b)) => (a, b),
+            (Err(_), _) => return, // the source stream is unreadable: nothing to compare with
+            (Ok(_), Err(e)) => { self.diff("stream-data-unreadable", format!("{}: data of the copied stream cannot be read: {}", path, e)); return; }
+        };
+        // declared /Length of the copy must match what is there
+        if let Some(l) = sb.info.get("Length").and_then(|l| l.clone().resolve(self.rn).ok()).and_then(|l| l.as_integer().ok()) {
+            if l as usize != db.len() {
+                self.diff("stream-length-wrong", format!("{}: copy declares /Length {} but holds {} bytes", path, l, db.len()));
+            }
+        }
+        let mut chain_same = fa.len() == fb.len();
+        if chain_same {
+            for ((na, pa), (nb, pb)) in fa.iter().zip(fb.iter()) {
+                if na != nb { chain_same = false; break; }
+                let keys: BTreeSet<String> = pa.iter().map(|(k, _)| k.to_string()).chain(pb.iter().map(|(k, _)| k.to_string())).collect();
+                for k in keys {
+                    let va = pa.get(&k).cloned().or_else(|| parm_default(na, &k)).unwrap_or(Primitive::Null);
+                    let vb = pb.get(&k).cloned().or_else(|| parm_default(na, &k)).unwrap_or(Primitive::Null);
+                    let before = self.diffs.len();
+                    self.equiv(&format!("{}/DecodeParms/{}", path, k), &va, &vb);
+                    if self.diffs.len() != before { chain_same = false; }
+                }
+            }
+        }
+        if !chain_same {
+            self.diff("stream-filters-differ", format!("{}: filter chain {:?} became {:?}", path, fa.iter().map(|f| (&f.0, f.1.len())).collect::<Vec<_>>(), fb.iter().map(|f| (&f.0, f.1.len())).collect::<Vec<_>>()));
+        }
+        if da[..] != db[..] {
+            self.diff("stream-data-differs", format!("{}: stream data differs ({} bytes vs {} bytes)", path, da.len(), db.len()));
+        }
+    }
+}
+
+/// effective value of an inheritable page attribute, read from the page dictionaries themselves
+fn inherited<R: Resolve>(r: &R, page: PlainRef, key: &str) -> Option<Primitive> {
+    let mut cur = page;
+    for _ in 0..32 {
+        let d = match r.resolve(cur).ok()? { Primitive::Dictionary(d) => d, _ => return None };
+        if let Some(v) = d.get(key) {
+            let v = v.clone().resolve(r).ok()?;
+            if !matches!(v, Primitive::Null) { return Some(v); }
+        }
+        match d.get("Parent") { Some(Primitive::Reference(p)) => cur = *p, _ => return None }
+    }
+    None
+}
+
+fn nums(p: &Option<Primitive>, r: &impl Resolve) -> Option<Vec<f64>> {
+    match p {
+        Some(Primitive::Array(a)) => a.iter().map(|x| x.clone().resolve(r).ok().and_then(|x| num_of(&x))).collect(),
+        _ => None,
+    }
+}
+
+/// a rectangle is the same whichever two opposite corners are given
+fn norm_rect(v: Option<Vec<f64>>) -> Option<Vec<f64>> {
+    v.map(|v| if v.len() == 4 { vec![v[0].min(v[2]), v[1].min(v[3]), v[0].max(v[2]), v[1].max(v[3])] } else { v })
+}
+
+const RES_KINDS: [&str; 7] = ["ExtGState", "Font", "XObject", "ColorSpace", "Pattern", "Shading", "Properties"];
+
+/// tokens of a content stream that name a shading (`/Name sh`): the typed operation list drops `sh`
+fn shading_names(data: &[u8]) -> Vec<String> {
+    let mut out = vec![];
+    let mut toks: Vec<Vec<u8>> = vec![];
+    let mut i = 0;
+    let n = data.len();
+    let is_ws = |b: u8| matches!(b, 0 | 9 | 10 | 12 | 13 | 32);
+    let is_delim = |b: u8| matches!(b, b'(' | b')' | b'<' | b'>' | b'[' | b']' | b'{' | b'}' | b'/' | b'%');
+    while i < n {
+        let b = data[i];
+        if is_ws(b) { i += 1; continue; }
+        if b == b'%' { while i < n && data[i] != b'\n' && data[i] != b'\r' { i += 1; } continue; }
+        if b == b'(' {
+            let mut depth = 0;
+            while i < n {
+                match data[i] { b'\\' => i += 1, b'(' => depth += 1, b')' => { depth -= 1; if depth == 0 { i += 1; break; } } _ => {} }
+                i += 1;
+            }
+            toks.push(b"(str)".to_vec());
+            continue;
+        }
+        if b == b'<' && i + 1 < n && data[i + 1] != b'<' {
+            while i < n && data[i] != b'>' { i += 1; }
+            i += 1;
+            toks.push(b"<hex>".to_vec());
+            continue;
+        }
+        if b == b'/' {
+            let st = i;
+            i += 1;
+            while i < n && !is_ws(data[i]) && !is_delim(data[i]) { i += 1; }
+            toks.push(data[st..i].to_vec());
+            continue;
+        }
+        if is_delim(b) { i += 1; if i < n && (data[i] == b'<' || data[i] == b'>') && data[i] == b { i += 1; } toks.push(vec![b]); continue; }
+        let st = i;
+        while i < n && !is_ws(data[i]) && !is_delim(data[i]) { i += 1; }
+        let t = data[st..i].to_vec();
+        if t == b"BI" { return vec![]; } // inline image data follows: do not guess
+        if t == b"sh" {
+            if let Some(prev) = toks.last() { if prev.first() == Some(&b'/') { out.push(String::from_utf8_lossy(&prev[1..]).to_string()); } }
+        }
+        toks.push(t);
+    }
+    out
+}
+
+/// the (category, name) pairs the operations of a page name
+fn used_resources(ops: &[Op], content: &[u8]) -> BTreeSet<(String, String)> {
+    let mut used = BTreeSet::new();
+    let std_cs = |n: &str| matches!(n, "DeviceGray" | "DeviceRGB" | "DeviceCMYK" | "Pattern");
+    for op in ops {
+        match op {
+            Op::GraphicsState { name } => { used.insert(("ExtGState".to_string(), name.as_str().to_string())); }
+            Op::TextFont { name, .. } => { used.insert(("Font".to_string(), name.as_str().to_string())); }
+            Op::XObject { name } => { used.insert(("XObject".to_string(), name.as_str().to_string())); }
+            Op::StrokeColorSpace { name } | Op::FillColorSpace { name } => {
+                if !std_cs(name.as_str()) { used.insert(("ColorSpace".to_string(), name.as_str().to_string())); }
+            }
+            Op::StrokeColor { color: Color::Other(args) } | Op::FillColor { color: Color::Other(args) } => {
+                if let Some(Primitive::Name(n)) = args.last() { used.insert(("Pattern".to_string(), n.to_string())); }
+            }
+            Op::BeginMarkedContent { properties: Some(Primitive::Name(n)), .. } | Op::MarkedContentPoint { properties: Some(Primitive::Name(n)), .. } => {
+                used.insert(("Properties".to_string(), n.to_string()));
+            }
+            Op::InlineImage { image } => {
+                if let Some(pdf::object::ColorSpace::Named(n)) = &image.inner.info.info.color_space {
+                    used.insert(("ColorSpace".to_string(), n.as_str().to_string()));
+                }
+            }
+            _ => {}
+        }
+    }
+    for n in shading_names(content) {
+        used.insert(("Shading".to_string(), n));
+    }
+    used
+}
+
+fn res_entry<R: Resolve>(r: &R, resources: &Option<Primitive>, kind: &str, name: &str) -> Option<Primitive> {
+    let d = match resources { Some(Primitive::Dictionary(d)) => d, _ => return None };
+    let cat = d.get(kind)?.clone().resolve(r).ok()?;
+    match cat { Primitive::Dictionary(c) => c.get(name).cloned(), _ => None }
+}
+
+fn ops_text(ops: &[Op]) -> Vec<String> {
+    ops.iter().map(|o| format!("{:?}", o)).collect()
+}
+
+/// all references reachable from `start` resolve (closure); returns the number of objects visited
+fn closure_check<R: Resolve, RO: Resolve>(r: &R, start: &Primitive, ro: &RO, bwd: &BTreeMap<u64, u64>, diffs: &mut Vec<(String, String)>) -> usize {
+    let mut seen: BTreeSet<u64> = BTreeSet::new();
+    let mut stack: Vec<Primitive> = vec![start.clone()];
+    while let Some(p) = stack.pop() {
+        let mut refs = vec![];
+        collect_refs(&p, &mut refs);
+        for id in refs {
+            if !seen.insert(id) { continue; }
+            match r.resolve(pref(id)) {
+                Ok(q) => stack.push(q),
+                Err(e) => {
+                    let d8 = bwd.get(&id).and_then(|o| ro.resolve(pref(*o)).ok()).map(|p| has_irregular_name(&p)).unwrap_or(false);
+                    let item = if is_missing(&e) {
+                        ("dangling-reference-in-copy".to_string(), format!("object {} is referenced in the new document but does not exist", id))
+                    } else if d8 {
+                        ("copy-unreadable:name-needs-escaping(D8)".to_string(), format!("object {} of the new document cannot be parsed; its source holds a name that needs #xx escaping", id))
+                    } else {
+                        ("copy-unreadable".to_string(), format!("object {} of the new document cannot be parsed: {}", id, crate::util::err_root(&e)))
+                    };
+                    if diffs.len() < 40 && !diffs.contains(&item) { diffs.push(item); }
+                }
+            }
+        }
+        if seen.len() > 200_000 { break; }
+    }
+    seen.len()
+}
+
+/// case = {"kind":"import","doc":hex | "path":…, "password":hex, "pages":[..], "cached":bool}
+/// → {"failures":[{"sig","what"}], "stats":{..}, "imported":n}
+fn exec_import(case: &Value) -> Value {
+    let doc = match case.get("path").and_then(|p| p.as_str()) {
+        Some(p) => match std::fs::read(p) { Ok(d) => d, Err(e) => return json!({"skip": format!("read: {}", e)}) },
+        None => unhex(case["doc"].as_str().unwrap_or("-")).unwrap_or_default(),
+    };
+    let password = unhex(case["password"].as_str().unwrap_or("-")).unwrap_or_default();
+    let pages: Vec<u32> = case["pages"].as_array().map(|a| a.iter().filter_map(|x| x.as_u64()).map(|x| x as u32).collect()).unwrap_or_default();
+    let mut failures: Vec<(String, String)> = vec![];
+    let mut stats: BTreeMap<String, u64> = BTreeMap::new();
+    let mut bump = |stats: &mut BTreeMap<String, u64>, k: &str| *stats.entry(k.to_string()).or_insert(0) += 1;
+
+    let old = match catch_unwind(AssertUnwindSafe(|| FileOptions::cached().password(&password).load(doc.clone()))) {
+        Ok(Ok(f)) => f,
+        Ok(Err(e)) => return json!({"skip": format!("source does not load: {}", e)}),
+        Err(_) => return json!({"skip": "source load panicked (not this property)"}),
+    };
+    let npages = old.num_pages();
+    let mut builder = PdfBuilder::new(FileOptions::cached());
+    let mut rec = Rec { inner: &mut builder.storage, created: vec![] };
+    // (source page index, source page) of the pages that were imported
+    let mut done: Vec<(u32, pdf::object::PageRc)> = vec![];
+    let mut pbs = vec![];
+    {
+        let mut imp = Importer::new(old.resolver(), &mut rec);
+        for &pi in &pages {
+            if pi >= npages { continue; }
+            let page = match catch_unwind(AssertUnwindSafe(|| old.get_page(pi))) {
+                Ok(Ok(p)) => p,
+                _ => { bump(&mut stats, "page=unreadable-in-source"); continue; }
+            };
+            match catch_unwind(AssertUnwindSafe(|| PageBuilder::clone_page(&page, &mut imp))) {
+                Ok(Ok(pb)) => { bump(&mut stats, "clone_page=ok"); pbs.push(pb); done.push((pi, page)); }
+                Ok(Err(e)) => { bump(&mut stats, "clone_page=err"); bump(&mut stats, &format!("clone_page-err:{}", trunc(&format!("{}", crate::util::err_root(&e)))[..].chars().take(60).collect::<String>())); }
+                Err(_) => {
+                    failures.push(("panic".into(), format!("clone_page panicked on page {}", pi)));
+                    break;
+                }
+            }
+        }
+    }
+    let created = rec.created.len();
+    stats.insert("objects-created-by-importer".into(), created as u64);
+    if !failures.is_empty() || done.is_empty() {
+        return json!({"failures": failures.iter().map(|(s, w)| json!({"sig": s, "what": w})).collect::<Vec<_>>(), "stats": stats, "imported": 0});
+    }
+    let bytes = match catch_unwind(AssertUnwindSafe(|| builder.build(CatalogBuilder::from_pages(pbs)))) {
+        Ok(Ok(b)) => b,
+        Ok(Err(e)) => {
+            // building is part of importing: an error is "importing did not succeed"
+            bump(&mut stats, "build=err");
+            bump(&mut stats, &format!("build-err:{}", format!("{}", crate::util::err_root(&e)).chars().take(60).collect::<String>()));
+            return json!({"failures": [], "stats": stats, "imported": 0});
+        }
+        Err(_) => {
+            failures.push(("panic".into(), "PdfBuilder::build panicked on imported pages".into()));
+            return json!({"failures": failures.iter().map(|(s, w)| json!({"sig": s, "what": w})).collect::<Vec<_>>(), "stats": stats, "imported": 0});
+        }
+    };
+    bump(&mut stats, "build=ok");
+    let new = match catch_unwind(AssertUnwindSafe(|| FileOptions::cached().load(bytes.clone()))) {
+        Ok(Ok(f)) => f,
+        Ok(Err(e)) => {
+            failures.push(("reload-failed".into(), format!("the new document does not load: {}", e)));
+            return json!({"failures": failures.iter().map(|(s, w)| json!({"sig": s, "what": w})).collect::<Vec<_>>(), "stats": stats, "imported": done.len(), "new_hex": hex(&bytes)});
+        }
+        Err(_) => {
+            failures.push(("reload-failed".into(), "loading the new document panicked".into()));
+            return json!({"failures": failures.iter().map(|(s, w)| json!({"sig": s, "what": w})).collect::<Vec<_>>(), "stats": stats, "imported": done.len()});
+        }
+    };
+    let ro = old.resolver();
+    let rn = new.resolver();
+    if new.num_pages() as usize != done.len() {
+        failures.push(("page-count".into(), format!("{} pages imported, the new document has {}", done.len(), new.num_pages())));
+    }
+    let mut cmp = Cmp { ro: &ro, rn: &rn, fwd: BTreeMap::new(), bwd: BTreeMap::new(), visited: BTreeSet::new(), diffs: vec![], steps: 0 };
+    for (ix, (pi, opage)) in done.iter().enumerate() {
+        let npage = match catch_unwind(AssertUnwindSafe(|| new.get_page(ix as u32))) {
+            Ok(Ok(p)) => p,
+            Ok(Err(e)) => { failures.push(("new-page-unreadable".into(), format!("page {} of the new document (source page {}) cannot be read: {}", ix, pi, e))); continue; }
+            Err(_) => { failures.push(("new-page-unreadable".into(), format!("reading page {} of the new document panicked", ix))); continue; }
+        };
+        let oref = opage.get_ref().get_inner();
+        let nref = npage.get_ref().get_inner();
+        let tag = format!("page{}", pi);
+        // --- boxes and rotation, from the dictionaries with inheritance
+        let om = norm_rect(nums(&inherited(&ro, oref, "MediaBox"), &ro));
+        let nm = norm_rect(nums(&inherited(&rn, nref, "MediaBox"), &rn));
+        if om != nm { failures.push(("mediabox-differs".into(), format!("{}: MediaBox {:?} became {:?}", tag, om, nm))); }
+        let oc = norm_rect(nums(&inherited(&ro, oref, "CropBox"), &ro)).or(om.clone());
+        let nc = norm_rect(nums(&inherited(&rn, nref, "CropBox"), &rn)).or(nm.clone());
+        if oc != nc { failures.push(("cropbox-differs".into(), format!("{}: CropBox {:?} became {:?}", tag, oc, nc))); }
+        let page_key = |r: &dyn Fn(&str) -> Option<Primitive>, k: &str| r(k);
+        let oget = |k: &str| -> Option<Primitive> { match ro.resolve(oref).ok()? { Primitive::Dictionary(d) => d.get(k).and_then(|v| v.clone().resolve(&ro).ok()), _ => None } };
+        let nget = |k: &str| -> Option<Primitive> { match rn.resolve(nref).ok()? { Primitive::Dictionary(d) => d.get(k).and_then(|v| v.clone().resolve(&rn).ok()), _ => None } };
+        let ot = norm_rect(nums(&page_key(&oget, "TrimBox"), &ro));
+        let nt = norm_rect(nums(&page_key(&nget, "TrimBox"), &rn));
+        if ot != nt { failures.push(("trimbox-differs".into(), format!("{}: TrimBox {:?} became {:?}", tag, ot, nt))); }
+        let orot = inherited(&ro, oref, "Rotate").and_then(|p| num_of(&p)).unwrap_or(0.0);
+        let nrot = inherited(&rn, nref, "Rotate").and_then(|p| num_of(&p)).unwrap_or(0.0);
+        if orot != nrot {
+            let own = oget("Rotate").is_some();
+            failures.push((if own { "rotate-differs" } else { "rotate-inherited-dropped" }.into(), format!("{}: /Rotate {} became {}", tag, orot, nrot)));
+        }
+        // --- operations
+        let oops = match opage.contents.as_ref().map(|c| c.operations(&ro)) { Some(Ok(o)) => o, Some(Err(_)) => { bump(&mut stats, "source-ops-unreadable"); continue; } None => vec![] };
+        let nops = match npage.contents.as_ref().map(|c| c.operations(&rn)) {
+            Some(Ok(o)) => o,
+            Some(Err(e)) => { failures.push(("new-ops-unreadable".into(), format!("{}: the operations of the new page cannot be read: {}", tag, e))); continue; }
+            None => vec![],
+        };
+        let (ot, nt) = (ops_text(&oops), ops_text(&nops));
+        *stats.entry("operations-compared".into()).or_insert(0) += ot.len() as u64;
+        if ot != nt {
+            // is the difference the serialiser's (C08: write + read of the same operations)?
+            let rt = pdf::content::serialize_ops(&oops).ok().and_then(|d| pdf::content::parse_ops(&d, &ro).ok()).map(|o| ops_text(&o));
+            if rt.as_ref() == Some(&nt) {
+                bump(&mut stats, "ops-differ-only-by-serializer-roundtrip(C08)");
+            } else {
+                let at = ot.iter().zip(nt.iter()).position(|(a, b)| a != b).unwrap_or(ot.len().min(nt.len()));
+                failures.push(("operations-differ".into(), format!("{}: {} operations became {}; first difference at {}: {:?} vs {:?}", tag, ot.len(), nt.len(), at, ot.get(at), nt.get(at))));
+            }
+        }
+        // --- resources by name
+        let mut content = vec![];
+        if let Some(c) = opage.contents.as_ref() { for part in &c.parts { if let Ok(d) = part.data(&ro) { content.extend_from_slice(&d); content.push(b'\n'); } } }
+        let used = used_resources(&oops, &content);
+        let ores = inherited(&ro, oref, "Resources");
+        let nres = inherited(&rn, nref, "Resources");
+        for (kind, name) in &used {
+            let oe = res_entry(&ro, &ores, kind, name);
+            let ne = res_entry(&rn, &nres, kind, name);
+            bump(&mut stats, &format!("used-resource:{}", kind));
+            match (oe, ne) {
+                (None, _) => bump(&mut stats, "used-resource-absent-in-source"),
+                (Some(_), None) => failures.push((format!("resource-not-copied:{}", kind), format!("{}: the operations name /{} of /{} but the new page's resources have no such entry", tag, name, kind))),
+                (Some(a), Some(b)) => {
+                    let before = cmp.diffs.len();
+                    cmp.equiv(&format!("{}/{}/{}", tag, kind, name), &a, &b);
+                    if cmp.diffs.len() == before { bump(&mut stats, "used-resource-equal"); }
+                }
+            }
+        }
+        // --- the other entries of the page dictionary
+        if let (Ok(Primitive::Dictionary(od)), Ok(Primitive::Dictionary(nd))) = (ro.resolve(oref), rn.resolve(nref)) {
+            for (k, v) in od.iter() {
+                if matches!(k.as_str(), "Type" | "Parent" | "Contents" | "Resources" | "Annots" | "MediaBox" | "CropBox" | "TrimBox" | "Rotate") { continue; }
+                match nd.get(k.as_str()) {
+                    Some(nv) => { let nv = nv.clone(); cmp.equiv(&format!("{}/{}", tag, k.as_str()), v, &nv); }
+                    None => { if !matches!(v, Primitive::Null) { cmp.diff(&format!("page-entry-lost:{}", k.as_str()), format!("{}: page entry /{} is missing in the new page", tag, k.as_str())); } }
+                }
+            }
+        }
+    }
+    stats.insert("object-pairs".into(), cmp.fwd.len() as u64);
+    let mut diffs = std::mem::take(&mut cmp.diffs);
+    // --- closure from the new trailer
+    let roots = Primitive::Array(vec![Primitive::Reference(new.trailer.root.get_ref().get_inner())]);
+    let bwd = cmp.bwd.clone();
+    let visited = closure_check(&rn, &roots, &ro, &bwd, &mut diffs);
+    stats.insert("new-objects-reachable".into(), visited as u64);
+    for (s, w) in diffs { failures.push((s, w)); }
+    json!({"failures": failures.iter().map(|(s, w)| json!({"sig": s, "what": w})).collect::<Vec<_>>(), "stats": stats, "imported": done.len()})
+}
+
+// =====================================================================================================
+// oracle driver
+
+struct ImportCase {
+    label: String,
+    case: Value,
+    /// run in a child process (anything that may overflow the stack or hang on a broken implementation)
+    child: bool,
+    nontrivial: bool,
+}
+
+fn corpus_files() -> Vec<(String, Vec<u8>)> {
+    let root = crate::util::repo_root();
+    let mut out = vec![];
+    let mut add = |dir: &str, pw: &[u8]| {
+        let mut names: Vec<_> = std::fs::read_dir(format!("{}/{}", root, dir)).map(|d| d.filter_map(|e| e.ok()).map(|e| e.path()).collect()).unwrap_or_else(|_| vec![]);
+        names.sort();
+        for p in names {
+            if p.extension().map(|e| e == "pdf").unwrap_or(false) {
+                out.push((p.to_string_lossy().to_string(), pw.to_vec()));
+            }
+        }
+    };
+    add("files", b"");
+    add("files/password_protected", b"userpassword");
+    out
+}
+
+fn page_count(path: &str, pw: &[u8]) -> Option<u32> {
+    let data = std::fs::read(path).ok()?;
+    catch_unwind(AssertUnwindSafe(|| FileOptions::uncached().password(pw).load(data).ok().map(|f| f.num_pages()))).ok().flatten()
+}
+
+/// subsets / orders of pages of an n-page document
+fn page_selections(rng: &mut Rng, n: u32, how_many: usize) -> Vec<Vec<u32>> {
+    let mut sels: Vec<Vec<u32>> = vec![];
+    // every page alone, all pages in order, all pages reversed
+    for i in 0..n.min(6) { sels.push(vec![i]); }
+    if n > 1 {
+        sels.push((0..n.min(8)).collect());
+        sels.push((0..n.min(8)).rev().collect());
+    }
+    for _ in 0..how_many {
+        let k = 1 + rng.below(n.min(5) as u64) as usize;
+        let mut all: Vec<u32> = (0..n).collect();
+        rng.shuffle(&mut all);
+        all.truncate(k);
+        if rng.chance(1, 4) && !all.is_empty() { let d = all[0]; all.push(d); } // the same page twice
+        sels.push(all);
+    }
+    sels.sort();
+    sels.dedup();
+    sels
+}
+
+fn run_import_cases(or: &mut Oracle, seed: u64, stream: &str, cases: Vec<ImportCase>) {
+    let child_ix: Vec<usize> = (0..cases.len()).filter(|i| cases[*i].child).collect();
+    let child_json: Vec<Value> = child_ix.iter().map(|i| cases[*i].case.clone()).collect();
+    let mut child_res: BTreeMap<usize, Result<Value, String>> = BTreeMap::new();
+    for (i, r) in child_ix.iter().zip(run_in_children(&child_json, 20).into_iter()) {
+        child_res.insert(*i, r);
+    }
+    for (i, c) in cases.iter().enumerate() {
+        let res: Result<Value, String> = match child_res.remove(&i) {
+            Some(r) => r,
+            None => Ok(exec_import(&c.case)),
+        };
+        let replay = json!({"stream": stream, "seed": seed, "case": i, "label": c.label, "import": c.case});
+        match res {
+            Err(e) => {
+                or.case(&c.label, c.nontrivial, || json!({"label": c.label}));
+                let sig = if e.starts_with("timeout") { "hang" } else { "abort" };
+                or.fail(sig, &format!("{}: importing took the process down: {}", c.label, e), replay);
+            }
+            Ok(v) => {
+                if let Some(sk) = v.get("skip") {
+                    or.count(&format!("skipped:{}", sk.as_str().unwrap_or("").chars().take(50).collect::<String>()));
+                    continue;
+                }
+                let imported = v["imported"].as_u64().unwrap_or(0);
+                or.case(&c.label, c.nontrivial && imported > 0, || json!({"label": c.label, "imported": imported, "stats": v["stats"]}));
+                or.count(if imported > 0 { "import=compared" } else { "import=did-not-succeed" });
+                if let Some(st) = v["stats"].as_object() {
+                    for (k, n) in st { for _ in 0..n.as_u64().unwrap_or(0).min(1) { or.count(&format!("{}", k)); } }
+                }
+                let mut seen = BTreeSet::new();
+                for f in v["failures"].as_array().cloned().unwrap_or_default() {
+                    let sig = f["sig"].as_str().unwrap_or("?").to_string();
+                    if seen.insert(sig.clone()) {
+                        or.fail(&sig, &format!("{}: {}", c.label, f["what"].as_str().unwrap_or("")), replay.clone());
+                    }
+                }
+            }
+        }
+    }
+}
+
+fn import_corpus(seed: u64, thorough: bool) -> Oracle {
+    let mut or = Oracle::new("c20.import.corpus");
+    let mut cases = vec![];
+    for (path, pw) in corpus_files() {
+        let n = match page_count(&path, &pw) { Some(n) if n > 0 => n, _ => { or.count("corpus-file-not-loadable"); continue; } };
+        let mut rng = Rng::derive(seed, "c20.import.corpus", cases.len() as u64);
+        let name = path.rsplit('/').next().unwrap_or("").to_string();
+        for sel in page_selections(&mut rng, n, if thorough { 12 } else { 2 }) {
+            cases.push(ImportCase {
+                label: format!("{} pages {:?}", name, sel),
+                case: json!({"kind": "import", "path": path, "password": hex(&pw), "pages": sel}),
+                child: true,
+                nontrivial: true,
+            });
+        }
+    }
+    run_import_cases(&mut or, seed, "c20.import.corpus", cases);
+    or
+}
+
+// =====================================================================================================
 
 pub fn run(driver: &Driver, seed: u64, thorough: bool, replay: Option<&serde_json::Value>) -> Report {
     if let Some(r) = replay {
@@ -694,5 +1697,7 @@ pub fn run(driver: &Driver, seed: u64, thorough: bool, replay: Option<&serde_jso
     let mut rep = Report::new("C20");
     rep.streams.push(clone_exhaustive(driver, if thorough { 3 } else { 2 }));
     rep.streams.push(clone_random(driver, seed, if thorough { 20_000 } else { 1500 }));
+    rep.streams.push(page_stream(driver, seed, if thorough { 10_000 } else { 800 }));
+    rep.oracles.push(import_corpus(seed, thorough));
     rep
 }
